@@ -128,12 +128,12 @@ def run_one(seed: int, tid: int, mode: str):
                 sel = [rng.randrange(len(ops)) for _ in range(rng.randint(0, 2))]
             # occasionally a container mixing operators of TWO pipelines (ready operators only, so admissible)
             cross = None
-            if multi and len(pipes) >= 2 and rng.random() < 0.12:
+            if multi and len(pipes) >= 2 and rng.random() < (0.3 if mode == "susp" else 0.12):
                 pj = rng.choice([x for x in range(len(pipes)) if x != pi])
                 ops2 = pipes[pj][1]
                 rdy2 = [i for i, o in enumerate(ops2) if o.state() in (S.PENDING, S.FAILED) and all(q.state() == S.COMPLETED for q in o.parents)]
                 if rdy2 and not any(x[0] == pj or (x[5] and x[5][0] == pj) for x in specs) and not any(x[5] and x[5][0] == pi for x in specs):
-                    cross = (pj, [rng.choice(rdy2)])
+                    cross = (pj, sorted(rng.sample(rdy2, min(len(rdy2), rng.choice([1, 1, 2])))))
             pool = rng.randrange(npools) if valid or rng.random() < 0.97 else rng.choice([-1, npools, npools + 3])
             R = ex.pools[pool] if 0 <= pool < npools else ex.pools[0]
             Q = k["Q"]
